@@ -24,13 +24,18 @@ import (
 type plDatagram struct {
 	Exp   int      `json:"exp"`
 	Data  wire.Hex `json:"data"`
-	Class string   `json:"class"` // valid | announce | unknown-template | truncated | garbage | corrupted | reserved | mutated
+	Class string   `json:"class"` // valid | announce | unknown-template | partial | truncated | garbage | corrupted | reserved | mutated | cross
+	// Proto: pipeline the datagram is sent to when it is not the case's own (cross traffic: self-contained
+	// datagrams of another protocol, decoded by that protocol's own workers in the same process at the same time)
+	Proto string `json:"proto,omitempty"`
 }
 
 type plCase struct {
 	Proto     string         `json:"proto"`
 	Workers   int            `json:"workers"`
 	UDPSize   int            `json:"udpsize"`
+	// OtherUDPSize: receive buffer size of the three other protocols (0 = same as UDPSize); the settings are independent
+	OtherUDPSize int `json:"other_udpsize,omitempty"`
 	Filter    []uint32       `json:"filter,omitempty"`
 	Exporters []wire.Hex     `json:"exporters"`
 	Phases    [][]plDatagram `json:"phases"`
@@ -90,6 +95,66 @@ func genPipeline(t *rapid.T, proto string, envs map[string]*wire.GenEnv, maxPhas
 		b := rapid.SliceOfN(rapid.Byte(), n, n).Draw(t, "gbytes")
 		b[0], b[1] = 0xde, 0xad // no valid version
 		return b
+	}
+	// cross traffic: other protocols' pipelines (their own workers, pools and queues) are busy in the same process
+	var crossProtos []string
+	if rapid.Bool().Draw(t, "cross") {
+		for _, p := range rapid.Permutation([]string{"ipfix", "nf9", "nf5", "sflow"}).Draw(t, "crossprotos") {
+			if p != proto && len(crossProtos) < 2 {
+				crossProtos = append(crossProtos, p)
+			}
+		}
+		crossProtos = crossProtos[:rapid.IntRange(1, 2).Draw(t, "ncross")]
+		c.OtherUDPSize = rapid.SampledFrom([]int{0, 600, 1024, 1500, 2048, 9000}).Draw(t, "otherudpsize")
+	}
+	crossTpl := map[string]wire.Template{}
+	crossDatagram := func() plDatagram {
+		cp := crossProtos[rapid.IntRange(0, len(crossProtos)-1).Draw(t, "crossproto")]
+		exp := rapid.IntRange(0, ne-1).Draw(t, "crossexp")
+		var b []byte
+		switch cp {
+		case "nf5":
+			pk := wire.GenNF5(t)
+			pk.Seq = nextSeq()
+			b = pk.Bytes()
+		case "sflow":
+			d := wire.GenSFDatagram(t)
+			d.Seq = nextSeq()
+			b = d.Bytes()
+		default:
+			// self-contained: template and data in one message; one definition per (protocol, exporter), so the
+			// cache content does not depend on the order in which these messages are decoded
+			env := envs[cp]
+			k := fmt.Sprint(cp, exp)
+			tp, ok := crossTpl[k]
+			if !ok {
+				tp = env.GenTemplate(t, wire.GenTemplateID(t))
+				crossTpl[k] = tp
+			}
+			kind := "tpl"
+			if tp.Options {
+				kind = "opt"
+			}
+			var m wire.Msg
+			m.Proto, m.Time, m.Domain, m.Count = cp, 1700000000, uint32(exp), 1
+			m.Seq = nextSeq()
+			m.Sets = []wire.Set{{Kind: kind, Tpls: []wire.Template{tp}}, env.GenDataSet(t, &tp, rapid.SampledFrom([]int{1, 3, 20, 60}).Draw(t, "crossrecs"))}
+			b = m.Bytes()
+		}
+		return plDatagram{Exp: exp, Data: b, Class: "cross", Proto: cp}
+	}
+	withCross := func(data []plDatagram) []plDatagram {
+		if len(crossProtos) == 0 {
+			return data
+		}
+		out := make([]plDatagram, 0, len(data)*3/2)
+		for _, d := range data {
+			for rapid.IntRange(0, 3).Draw(t, "crossnow") == 0 {
+				out = append(out, crossDatagram())
+			}
+			out = append(out, d)
+		}
+		return out
 	}
 	nphases := rapid.IntRange(1, 3).Draw(t, "nphases")
 	phaseLen := func() int {
@@ -202,6 +267,23 @@ func genPipeline(t *rapid.T, proto string, envs map[string]*wire.GenEnv, maxPhas
 					// periodic template refresh: the identical announcement again, concurrently with data that uses
 					// the template (the cache content does not change, so the phase stays order-independent)
 					b, class = key.ann, "refresh"
+				case 7:
+					// partly decodable: the sets of a known template together with a set of a template this exporter
+					// never announced (in front or behind) — records are delivered, an error is reported as well
+					id := key.tpl.ID ^ 0x2000
+					if id < 256 {
+						id += 256
+					}
+					if !usedID[fmt.Sprint(key.exp, id)] {
+						pm := m
+						raw := wire.Set{Kind: "raw", RawID: id, RawBody: rapid.SliceOfN(rapid.Byte(), 4, 40).Draw(t, "pbody")}
+						if rapid.Bool().Draw(t, "pfront") {
+							pm.Sets = append([]wire.Set{raw}, m.Sets...)
+						} else {
+							pm.Sets = append(append([]wire.Set{}, m.Sets...), raw)
+						}
+						b, class = pm.Bytes(), "partial"
+					}
 				case 4:
 					rm := m
 					rm.Sets = append([]wire.Set{{Kind: "raw", RawID: uint16(rapid.IntRange(4, 255).Draw(t, "rid")), RawBody: rapid.SliceOfN(rapid.Byte(), 0, 30).Draw(t, "rbody")}}, m.Sets...)
@@ -209,7 +291,7 @@ func genPipeline(t *rapid.T, proto string, envs map[string]*wire.GenEnv, maxPhas
 				}
 				data = append(data, plDatagram{Exp: key.exp, Data: b, Class: class})
 			}
-			c.Phases = append(c.Phases, data)
+			c.Phases = append(c.Phases, withCross(data))
 		}
 	case "nf5":
 		for p := 0; p < nphases; p++ {
@@ -229,7 +311,7 @@ func genPipeline(t *rapid.T, proto string, envs map[string]*wire.GenEnv, maxPhas
 				}
 				data = append(data, plDatagram{Exp: exp, Data: b, Class: class})
 			}
-			c.Phases = append(c.Phases, data)
+			c.Phases = append(c.Phases, withCross(data))
 		}
 	case "sflow":
 		if rapid.IntRange(0, 3).Draw(t, "withfilter") == 0 {
@@ -260,7 +342,7 @@ func genPipeline(t *rapid.T, proto string, envs map[string]*wire.GenEnv, maxPhas
 				}
 				data = append(data, plDatagram{Exp: exp, Data: b, Class: class})
 			}
-			c.Phases = append(c.Phases, data)
+			c.Phases = append(c.Phases, withCross(data))
 		}
 	}
 	return c
@@ -332,7 +414,7 @@ func sequentialDecode(proto string, replica *flowCache, addr []byte, data []byte
 func toDrvPhase(c *plCase, ph []plDatagram) []drvDatagram {
 	out := make([]drvDatagram, 0, len(ph))
 	for i, d := range ph {
-		out = append(out, drvDatagram{Addr: hex.EncodeToString(c.Exporters[d.Exp]), Port: 2000 + i%1000, Data: hex.EncodeToString(d.Data)})
+		out = append(out, drvDatagram{Addr: hex.EncodeToString(c.Exporters[d.Exp]), Port: 2000 + i%1000, Data: hex.EncodeToString(d.Data), Proto: d.Proto})
 	}
 	return out
 }
@@ -341,7 +423,7 @@ func runPipeline(prop string, c *plCase) (v verdict, sig string, err error) {
 	if c.Workers < 1 || c.UDPSize < 1 || len(c.Exporters) == 0 {
 		return v, "", fmt.Errorf("bad case")
 	}
-	req := drvRequest{Op: "pipeline", Proto: c.Proto, Workers: c.Workers, UDPSize: c.UDPSize, Filter: c.Filter, ResetCache: true}
+	req := drvRequest{Op: "pipeline", Proto: c.Proto, Workers: c.Workers, UDPSize: c.UDPSize, OtherUDPSize: c.OtherUDPSize, Filter: c.Filter, ResetCache: true}
 	for _, ph := range c.Phases {
 		for _, d := range ph {
 			if d.Exp < 0 || d.Exp >= len(c.Exporters) {
@@ -367,28 +449,103 @@ func runPipeline(prop string, c *plCase) (v verdict, sig string, err error) {
 		return v, "", fmt.Errorf("harness: driver answered %d phases for %d", len(resp.Phases), len(c.Phases))
 	}
 	// sequential reference
-	var replica *flowCache
-	if c.Proto == "ipfix" || c.Proto == "nf9" {
-		replica = newFlowCache(c.Proto)
+	replicas := map[string]*flowCache{}
+	replicaOf := func(p string) *flowCache {
+		if p != "ipfix" && p != "nf9" {
+			return nil
+		}
+		if replicas[p] == nil {
+			replicas[p] = newFlowCache(p)
+		}
+		return replicas[p]
+	}
+	sizeOf := func(p string) int {
+		if p == c.Proto || c.OtherUDPSize <= 0 {
+			return c.UDPSize
+		}
+		return c.OtherUDPSize
+	}
+	clip := func(s string) string {
+		if len(s) > 300 {
+			return s[:300] + "..."
+		}
+		return s
+	}
+	// compare the multiset a pipeline published with what its datagrams decode to on their own
+	compare := func(pi int, pname string, nsent int, published []string, want map[string]int) (string, error) {
+		got := map[string]int{}
+		for _, h := range published {
+			b, _ := hex.DecodeString(h)
+			got[normPayload(pname, b)]++
+		}
+		var extra, missing, dup []string
+		for p, n := range got {
+			w := want[p]
+			if w == 0 {
+				extra = append(extra, p)
+			} else if n > w {
+				dup = append(dup, p)
+			}
+		}
+		for p, w := range want {
+			if got[p] < w {
+				missing = append(missing, p)
+			}
+		}
+		sort.Strings(extra)
+		sort.Strings(missing)
+		sort.Strings(dup)
+		what := pname + " pipeline"
+		if pname != c.Proto {
+			what = pname + " pipeline (cross traffic next to the " + c.Proto + " pipeline)"
+		}
+		switch {
+		case len(extra) > 0 && len(missing) > 0:
+			return "payload-mismatch", fmt.Errorf("phase %d, %s (%d datagrams, %d workers, receive buffers %d/%d octets): %d published payloads differ from what their datagrams decode to on their own; e.g. published %s ; expected (missing) %s",
+				pi, what, nsent, c.Workers, c.UDPSize, sizeOf("-"), len(extra), clip(extra[0]), clip(missing[0]))
+		case len(extra) > 0:
+			return "extra", fmt.Errorf("phase %d, %s: %d published payloads correspond to no datagram sent, e.g. %s", pi, what, len(extra), clip(extra[0]))
+		case len(dup) > 0:
+			return "duplicate", fmt.Errorf("phase %d, %s: %d payloads published more than once, e.g. %s", pi, what, len(dup), clip(dup[0]))
+		case len(missing) > 0:
+			return "missing", fmt.Errorf("phase %d, %s (%d datagrams, %d workers): %d datagrams that yield records were not published, e.g. %s", pi, what, nsent, c.Workers, len(missing), clip(missing[0]))
+		}
+		return "", nil
 	}
 	sizeMix, classMix := false, false
 	for pi, ph := range c.Phases {
-		want := map[string]int{}
+		want := map[string]map[string]int{c.Proto: {}}
+		sent := map[string]int{}
 		lo, hi := uint64(0), uint64(0)
 		minLen, maxLen := 1<<30, 0
 		classes := map[string]bool{}
 		for _, dg := range ph {
-			data := []byte(dg.Data)
-			if len(data) > c.UDPSize {
-				data = data[:c.UDPSize] // the receive buffer holds UDPSize octets
-				v.label(true, "oversize-datagram")
+			pname := dg.Proto
+			if pname == "" {
+				pname = c.Proto
 			}
-			o, perr := sequentialDecode(c.Proto, replica, c.Exporters[dg.Exp], data, c.Filter)
+			if want[pname] == nil {
+				want[pname] = map[string]int{}
+			}
+			sent[pname]++
+			data := []byte(dg.Data)
+			if len(data) > sizeOf(pname) {
+				data = data[:sizeOf(pname)] // the receive buffer holds that many octets
+				v.label(true, "oversize-datagram")
+				v.label(pname != c.Proto, "oversize-cross-datagram")
+			}
+			o, perr := sequentialDecode(pname, replicaOf(pname), c.Exporters[dg.Exp], data, c.Filter)
 			if perr != nil {
 				return v, "seq-panic", fmt.Errorf("phase %d: sequential decode: %v", pi, perr)
 			}
 			if o.published {
-				want[o.payload]++
+				want[pname][o.payload]++
+			}
+			classes[dg.Class] = true
+			v.label(true, "class-"+dg.Class)
+			if pname != c.Proto {
+				v.label(true, "cross-"+pname)
+				continue
 			}
 			if c.Proto == "sflow" {
 				if o.published {
@@ -411,57 +568,26 @@ func runPipeline(prop string, c *plCase) (v verdict, sig string, err error) {
 			if len(data) > maxLen {
 				maxLen = len(data)
 			}
-			classes[dg.Class] = true
-			v.label(true, "class-"+dg.Class)
 		}
-		if len(ph) > c.Workers && maxLen > 4*minLen+4 {
+		if sent[c.Proto] > c.Workers && maxLen > 4*minLen+4 {
 			sizeMix = true
 		}
 		if len(classes) >= 3 && c.Workers >= 2 {
 			classMix = true
 		}
-		got := map[string]int{}
-		for _, h := range resp.Phases[pi].Published {
-			b, _ := hex.DecodeString(h)
-			got[normPayload(c.Proto, b)]++
+		if sig, err := compare(pi, c.Proto, sent[c.Proto], resp.Phases[pi].Published, want[c.Proto]); err != nil {
+			return v, sig, err
 		}
-		// compare multisets
-		var extra, missing, dup []string
-		for p, n := range got {
-			w := want[p]
-			if w == 0 {
-				extra = append(extra, p)
-			} else if n > w {
-				dup = append(dup, p)
+		for pname, w := range want {
+			if pname == c.Proto {
+				continue
 			}
-		}
-		for p, w := range want {
-			if got[p] < w {
-				missing = append(missing, p)
+			if sig, err := compare(pi, pname, sent[pname], resp.Phases[pi].Others[pname], w); err != nil {
+				return v, "cross-" + sig, err
 			}
-		}
-		sort.Strings(extra)
-		sort.Strings(missing)
-		sort.Strings(dup)
-		clip := func(s string) string {
-			if len(s) > 300 {
-				return s[:300] + "..."
-			}
-			return s
-		}
-		switch {
-		case len(extra) > 0 && len(missing) > 0:
-			return v, "payload-mismatch", fmt.Errorf("phase %d (%d datagrams, %d workers): %d published payloads differ from what their datagrams decode to on their own; e.g. published %s ; expected (missing) %s",
-				pi, len(ph), c.Workers, len(extra), clip(extra[0]), clip(missing[0]))
-		case len(extra) > 0:
-			return v, "extra", fmt.Errorf("phase %d: %d published payloads correspond to no datagram sent, e.g. %s", pi, len(extra), clip(extra[0]))
-		case len(dup) > 0:
-			return v, "duplicate", fmt.Errorf("phase %d: %d payloads published more than once, e.g. %s", pi, len(dup), clip(dup[0]))
-		case len(missing) > 0:
-			return v, "missing", fmt.Errorf("phase %d (%d datagrams, %d workers): %d datagrams that yield records were not published, e.g. %s", pi, len(ph), c.Workers, len(missing), clip(missing[0]))
 		}
 		if dd := resp.Phases[pi].DecodedDelta; dd < lo || dd > hi {
-			return v, "decoded-count", fmt.Errorf("phase %d: DecodedCount moved by %d for %d datagrams; %d decode without error, %d return a message", pi, dd, len(ph), lo, hi)
+			return v, "decoded-count", fmt.Errorf("phase %d: DecodedCount moved by %d for %d datagrams; %d decode without error, %d return a message", pi, dd, sent[c.Proto], lo, hi)
 		}
 	}
 	v.label(true, "proto-"+c.Proto)
@@ -470,6 +596,7 @@ func runPipeline(prop string, c *plCase) (v verdict, sig string, err error) {
 	v.label(c.Workers == 1, "workers=1")
 	v.label(sizeMix, "size-mix")
 	v.label(classMix, "class-mix")
+	v.label(c.OtherUDPSize > 0 && c.OtherUDPSize != c.UDPSize, "independent-udp-sizes")
 	if prop == "C13" {
 		v.NT = classMix
 	} else {
